@@ -1356,4 +1356,7 @@ ASSUMPTIONS = [
     'encodings are compared after parsing both sides into nested position maps and dropping empty parts, so the library\'s trimming policy for present-but-empty children is not part of the oracle',
     'an operation the library accepts although the generator marked it as rejectable stops the model comparison for that root (other monitors continue)',
     'the wall clock is frozen',
+    'roots: segments, fields, messages of the structure tables, profile-bound RSP_K21 messages (C04/C05) and Z messages (no structure of their own); the first repetition of an existing child is addressed through the proxy (s.pid_3.cx_1 = v) in about a third of the writes and by index otherwise',
+    'directed sequences the generator appends to seeded operations: stale-handle write, delete, write of a sibling component; read through an absent child, add_x() of it (or a refused assignment of it), write through the same path; two handles to two components of a child the element had and lost; self-copies s.f[i] = s.f; sibling into the next free slot',
+    'the content of a lazily created element whose attachment was refused (an element that belongs to no tree) is not compared',
 ]
